@@ -166,6 +166,14 @@ func (c *effectsCache) compute(vc *VC, f *ssa.Function) *EffectSet {
 func (vc *VC) localEffects(g *ssa.Function) (*EffectSet, []*ssa.Function) {
 	e := &EffectSet{heaps: map[string]bool{}}
 	name := funcName(g)
+	if fc := vc.specs.contractFor(name); fc != nil {
+		// ghosts assigned by the function's set clauses are part of its effect
+		for _, n := range fc.setGhosts() {
+			if gh := vc.specs.ghost(n); gh != nil && !gh.IsMap {
+				e.heaps[gh.heapName()] = true
+			}
+		}
+	}
 	if fc := vc.specs.contractFor(name); fc != nil && (fc.Pure || fc.HasMod) {
 		// declared write set: expressed as heap names
 		if fc.HasMod {
